@@ -9,22 +9,21 @@ import (
 func read(rd io.Reader) (byte, error) {
 	var b = make([]byte, 1)
 
-	i, err := rd.Read(b)
+	// a reader may report that nothing happened (0 bytes, no error): ask again, but not forever
+	for tries := 0; tries < 100; tries++ {
+		i, err := rd.Read(b)
 
-	// a reader may deliver the last byte together with io.EOF
-	if i == 1 {
-		return b[0], nil
+		// a reader may deliver the last byte together with io.EOF
+		if i == 1 {
+			return b[0], nil
+		}
+
+		if err != nil {
+			return 0, err
+		}
 	}
 
-	if err != nil {
-		return 0, err
-	}
-
-	if i != 1 {
-		return 0, err
-	}
-
-	return b[0], nil
+	return 0, io.ErrNoProgress
 }
 
 func convert(b []byte) (out []byte, err error) {
